@@ -21,6 +21,31 @@ CLAIMED = {
                  "byte-level behaviour of idf_input_string on arbitrary bytes, byte identity of re-serialisation."),
         "note": "Trusted: clang 14 AST/CFG, libstdc++ iostream semantics, equivalence of per-file units with the unity build, NDEBUG as shipped.",
     },
+    "C11": {
+        "level": "proof",
+        "design_ref": "DESIGN.md section 3, C11 (R11.1, R11.2, R11.4)",
+        "technique": "AST rules: index-field coverage of every remap_indices, renumbering order, header/entry accessor agreement",
+        "text": ("Decides the closure clauses of C11 that are visible in the code's shape: every index-typed field (found by its "
+                 "typedef sugar, so a newly added one is included) of every record, of the database and of the builder state read "
+                 "after renumbering is rewritten from map_from(<same lvalue>); wrappers are renumbered first, one step per entry, from "
+                 "the literal 1; InterfaceMakerC::write_function_header and FunctionRemap::make_wrapper_entry take name, return type "
+                 "(same void test) and every parameter type from the same accessors.  Not decided: correctness of the indices the "
+                 "builder stored before renumbering, distinctness of unique names (run-time hash values)."),
+        "note": "Trusted: clang 14 AST/CFG; typedef sugar identifies index fields; std::map iteration order.",
+    },
+    "C20": {
+        "level": "proof",
+        "design_ref": "DESIGN.md section 3, C20 (R20.1-R20.6)",
+        "technique": "CFG gated reachability (bounds / found-edge domination), abstract range-progress check, interface call-closure",
+        "text": ("Decides totality of the query interface structurally: every subscript indexed by a parameter is reachable only "
+                 "through n >= 0 and n < size() of the same container and out-of-range paths return a neutral value; index lookups "
+                 "dereference the find() result only when found and otherwise return a static default-constructed record whose scalar "
+                 "fields the constructor initialises; both bisection recursions shrink their range on every call; string positions in "
+                 "interrogatedb are size-guarded; each of the 164 extern \"C\" functions is defined and composed only of get_ptr(), "
+                 "total database members, record accessors and c_str() on non-temporaries; each count function counts the container "
+                 "its accessor subscripts.  Not decided: exactness of by-name lookups on particular contents (std::map trusted)."),
+        "note": "Trusted: clang 14 AST/CFG, std::map/vector semantics, valid C strings from callers, NDEBUG.",
+    },
 }
 
 NOT_APPLICABLE = {
